@@ -32,13 +32,45 @@ type kept struct {
 	isInt bool
 }
 
+// intHolder is decoded into again and again (one variable for the whole history).
+type intHolder struct {
+	V ethtypes.HexInteger   `json:"v"`
+	P *ethtypes.HexInteger  `json:"p"`
+	L []ethtypes.HexInteger `json:"l"`
+}
+
 func judgeSeq(c SeqCase) (vs []evid.Violation) {
 	var keep []kept
 	ctx := context.Background()
+	// targets that are RE-USED by every parse of the history; what is kept of them are value copies
+	// (the way a caller stores a HexInteger in its own struct), which later parses must not reach
+	var sameHI ethtypes.HexInteger
+	var samePtr *ethtypes.HexInteger
+	var sameHolder intHolder
+	keepCopy := func(text, via string, d numref.Denotation, cp ethtypes.HexInteger) {
+		h := &cp
+		keep = append(keep, kept{text: text, via: via, snap: h.BigInt().String(), live: func() *big.Int { return h.BigInt() }, den: d})
+	}
 	for _, text := range c.Texts {
 		d := numref.Classify(text)
 		if expensive(text, d) {
 			continue
+		}
+		{
+			doc, _ := json.Marshal(text)
+			if err := json.Unmarshal(doc, &sameHI); err == nil {
+				keepCopy(text, "copy of a re-used HexInteger variable", d, sameHI)
+			}
+			if err := json.Unmarshal(doc, &samePtr); err == nil && samePtr != nil {
+				keepCopy(text, "copy of a re-used *HexInteger target", d, *samePtr)
+			}
+			hdoc := []byte(`{"v":` + string(doc) + `,"p":` + string(doc) + `,"l":[` + string(doc) + `,` + string(doc) + `]}`)
+			if err := json.Unmarshal(hdoc, &sameHolder); err == nil && sameHolder.P != nil && len(sameHolder.L) == 2 {
+				keepCopy(text, "copy of field V of a struct decoded again and again", d, sameHolder.V)
+				keepCopy(text, "copy of field *P of a struct decoded again and again", d, *sameHolder.P)
+				keepCopy(text, "copy of element L[0] of a struct decoded again and again", d, sameHolder.L[0])
+				keepCopy(text, "copy of element L[1] of a struct decoded again and again", d, sameHolder.L[1])
+			}
 		}
 		if bi, err := ethtypes.BigIntegerFromString(ctx, text); err == nil && bi != nil {
 			b := bi
